@@ -200,8 +200,34 @@ def _pairs_sound(a, r):
   i_, j_ = z3.ToInt(TH.at2(r.term, 0, _R)), z3.ToInt(TH.at2(r.term, 1, _R))
   li, lj = TH.at1(pl, i_), TH.at1(pl, j_)
   same = z3.is_true(a.same_label)
-  body = z3.And(i_ >= 0, i_ < n, j_ >= 0, j_ < n, li >= 0, lj >= 0, (li == lj) if same else (li != lj), *([i_ != j_] if same else []))
-  return z3.Implies(z3.And(_R >= 0, _R < r.dim(1)), body)
+  body = z3.And(i_ >= 0, i_ < n, j_ >= 0, j_ < n, li >= 0, lj >= 0, (li == lj) if same else (li != lj), *([i_ != j_] if same else []),
+                z3.IsInt(TH.at2(r.term, 0, _R)), z3.IsInt(TH.at2(r.term, 1, _R)))
+  # closed (quantified) form: proved on the body by skolemisation, and usable at call sites for every column of the result
+  return z3.ForAll([_R], z3.Implies(z3.And(_R >= 0, _R < r.dim(1)), body), patterns=[TH.at2(r.term, 0, _R), TH.at2(r.term, 1, _R)])
 
 
-REGISTRY[_PT].ensures['every-pair-joins-two-distinct-known-label-points-of-equal-resp-different-label'] = body_only(_pairs_sound)
+REGISTRY[_PT].ensures['every-pair-joins-two-distinct-known-label-points-of-equal-resp-different-label'] = _pairs_sound
+
+
+# ---- the public entry point: positive pairs (a[k], b[k]) and negative pairs (c[k], d[k])
+_K = z3.Int('k!pnp')
+
+
+def _pnp_sound(a, r):
+  if not (isinstance(r, tuple) and len(r) == 4) or any(x.term is None for x in r):
+    return PatternMismatch('the four returned index vectors vs the rows of the two _pairs results')
+  pl = a.self.partial_labels.term
+  n = a.self.partial_labels.dim(0)
+  def lab(x):
+    return TH.at1(pl, z3.ToInt(TH.at1(x.term, _K)))
+  def known_in_range(x):
+    v_ = z3.ToInt(TH.at1(x.term, _K))
+    return z3.And(v_ >= 0, v_ < n, lab(x) >= 0)
+  pos = z3.Implies(z3.And(_K >= 0, _K < r[0].dim(0)),
+                   z3.And(known_in_range(r[0]), known_in_range(r[1]), lab(r[0]) == lab(r[1]), TH.at1(r[0].term, _K) != TH.at1(r[1].term, _K)))
+  neg = z3.Implies(z3.And(_K >= 0, _K < r[2].dim(0)), z3.And(known_in_range(r[2]), known_in_range(r[3]), lab(r[2]) != lab(r[3])))
+  return z3.And(pos, neg)
+
+
+REGISTRY['constraints:Constraints.positive_negative_pairs'].ensures[
+    'positive-pairs-join-distinct-points-of-equal-known-label-negative-pairs-points-of-different-known-labels'] = body_only(_pnp_sound)
